@@ -106,9 +106,9 @@ LEVEL_TEXT['C10'] = 'Kernel only. Unbounded deductive proof (Verus) that errexit
 NOTE['C10'] = 'Kernel only (the dynamic context stack decision). Trusted: Verus/Z3, Kani/CBMC; Env reduced to three fields in the Verus unit; OptionSet::get and slice::contains assumed; RandomState::new stubbed in Kani. Not covered: pushing of Condition frames, callers of apply_errexit, the shell-error consequence table.'
 TECH['C10'] = 'contract-based deductive verification (Verus, Z3) of Env::errexit_is_applicable / apply_errexit / apply_result + bounded Kani sibling on the real crate'
 
-LEVEL_TEXT['C09'] = 'Kernel only. Unbounded deductive proof (Verus) on the real perform / RedirGuard code, against an assumed model of the descriptor table: a redirection saves the target in a close-on-exec descriptor >= 10, changes the target only, refuses targets the shell reserves, and leaves the table unchanged on every failure; the guard restores exactly the initial table (undo_redirs, Drop) for any number of redirections, or closes every backing copy (preserve_redirs). What each operator opens, the expansion of operands and the interpreter\'s use of the guard are assumed or not decided; level other because the claim is a kernel over a model of the OS side.'
-NOTE['C09'] = 'Kernel only. Trusted: Verus/Z3; the descriptor-table model of Close/Dup/Fcntl; assumed contracts for the openers (open_normal, here_doc::open_fd) and for expansion; await points dropped; loops over drain() checked in an equivalent form. Not covered: noclobber / operator semantics, here-document content, callers of RedirGuard, move_fd_internal, VirtualSystem.'
-TECH['C09'] = 'contract-based deductive verification (Verus, Z3) of perform / replace_target / RedirGuard::{new, perform_redir, undo_redirs, preserve_redirs, drop} against a ghost descriptor table'
+LEVEL_TEXT['C09'] = 'Kernel only. Unbounded deductive proof (Verus) on the real perform / RedirGuard code, against an assumed model of the descriptor table: a redirection saves the target in a close-on-exec descriptor >= 10, changes the target only, refuses targets the shell reserves, and leaves the table unchanged on every failure; the guard restores exactly the initial table (undo_redirs, Drop) for any number of redirections, or closes every backing copy (preserve_redirs). Each operator opens its file with the access mode and flags of XCU 2.7, noclobber never truncates or hands out an existing regular file, <& / >& only name suitable open descriptors, and every opener leaves nothing open on failure. The expansion of operands and the interpreter\'s use of the guard are assumed or not decided; level other because the claim is a kernel over a model of the OS side.'
+NOTE['C09'] = 'Kernel only. Trusted: Verus/Z3; the descriptor-table model of Close/Dup/Fcntl; assumed contracts for expansion and for writing the here-document body; await points dropped; loops over drain() checked in an equivalent form. Not covered: here-document content, callers of RedirGuard, move_fd_internal, VirtualSystem.'
+TECH['C09'] = 'contract-based deductive verification (Verus, Z3) of perform / replace_target / RedirGuard::{new, perform_redir, undo_redirs, preserve_redirs, drop} and the openers (open_normal, open_file, open_file_noclobber, copy_fd, here_doc::open_fd) against a ghost descriptor table'
 
 
 def main():
